@@ -417,12 +417,19 @@ def cached(name, keyparts, fn):
     for _, f in fs[:-40]: os.remove(os.path.join(d, f))
     return res
 
+def _big_stack():
+    import resource
+    try: resource.setrlimit(resource.RLIMIT_STACK, (resource.RLIM_INFINITY, resource.RLIM_INFINITY))
+    except Exception:
+        try: resource.setrlimit(resource.RLIMIT_STACK, (1 << 30, 1 << 30))
+        except Exception: pass
+
 def run_pipes(jobs, timeout=3000):
     """jobs: list of (bvh_cmd, model_cmd); run all in parallel; returns list of (rc_h, rc_m, out, err)"""
     procs = []
     for bvh_cmd, model_cmd in jobs:
         ph = subprocess.Popen(bvh_cmd, stdout=subprocess.PIPE, stderr=subprocess.PIPE)
-        pm = subprocess.Popen(model_cmd, stdin=ph.stdout, stdout=subprocess.PIPE, stderr=subprocess.PIPE, text=True)
+        pm = subprocess.Popen(model_cmd, stdin=ph.stdout, stdout=subprocess.PIPE, stderr=subprocess.PIPE, text=True, preexec_fn=_big_stack)
         ph.stdout.close(); procs.append((ph, pm))
     res = []
     for ph, pm in procs:
